@@ -188,13 +188,13 @@ decreasing_by omega
 
 /-- `impl Display for TcpOption` (display.rs). -/
 def optChars : TcpOption → List Char
-  | .eol n => "eol+".toList ++ decChars n
-  | .nop => "nop".toList
-  | .mss => "mss".toList
-  | .ws => "ws".toList
-  | .sok => "sok".toList
-  | .sack => "sack".toList
-  | .ts => "ts".toList
+  | .eol n => ['e', 'o', 'l', '+'] ++ decChars n
+  | .nop => ['n', 'o', 'p']
+  | .mss => ['m', 's', 's']
+  | .ws => ['w', 's']
+  | .sok => ['s', 'o', 'k']
+  | .sack => ['s', 'a', 'c', 'k']
+  | .ts => ['t', 's']
   | .unknown n => '?' :: decChars n
 
 /-- `parts.join(",")` -/
